@@ -234,4 +234,19 @@ def fieldsOf (z : Zoned) (Y : Int) (o : Nat) : Fields :=
 def truncSecs (z : Zoned) : Zoned :=
   ⟨⟨z.utc.date, ⟨z.utc.time.secs, if z.utc.time.frac ≥ 1000000000 then 1000000000 else 0⟩⟩, z.off⟩
 
+/-- the whole second after `z`'s second, same day, no sub-second part (meaningful when
+`z.utc.time.secs < 86399`) -/
+def nextSec (z : Zoned) : Zoned :=
+  ⟨⟨z.utc.date, ⟨z.utc.time.secs + 1, 0⟩⟩, z.off⟩
+
+/-- `z` carries the leap-second representation (nanosecond field ≥ 10⁹) on a second other than :59 of
+a minute — a value no public constructor but `with_nanosecond` builds.  Its instant is `secs + 1 +
+(frac − 10⁹)/10⁹`: to whole seconds, the FOLLOWING second. -/
+def InbandLeap (z : Zoned) : Prop := z.utc.time.frac ≥ 1000000000 ∧ z.utc.time.secs % 60 ≠ 59
+instance (z : Zoned) : Decidable (InbandLeap z) := by unfold InbandLeap; exact inferInstance
+
+/-- what the standard form of `z` reads back as: `z` to whole seconds with a leap second (on :59)
+kept, and for the in-band leap representation on another second the following whole second -/
+def readBack (z : Zoned) : Zoned := if InbandLeap z then nextSec z else truncSecs z
+
 end Chrono.Spec.Rfc2822
